@@ -1,4 +1,5 @@
 import SFV.Model.Tag
+import SFV.Gen.RemapKeys
 /-! `remap_path` / `remap_token_value` of `streamflow/cwl/utils.py`, with the pieces of the standard library
     they call: `urllib.parse.unquote` (percent decoding of the ASCII runs, UTF-8 with replacement),
     `urllib.parse.urlsplit(..).scheme`, `posixpath.relpath` (via `abspath`/`normpath`) and `posixpath.join`.
@@ -144,13 +145,14 @@ def pjoin : Str → List Str → Str
 
 /-! ### `remap_path` -/
 
-def fileUrl : Str := ['f', 'i', 'l', 'e', ':', '/', '/']
+/-- the `"file://{}"` prefix of `remap_path` (from the source) -/
+@[reducible] def fileUrl : Str := SFV.Gen.remapFilePrefix
 
 /-- `remap_path(posixpath, path, old_dir, new_dir)` -/
 def remapPath (cwd : List Str) (path old new : Str) : Option Str :=
   if containsColonSlash path then
-    if scheme path = ['f', 'i', 'l', 'e'] then
-      (relpath cwd (unquote (path.drop 7)) old).map (fun rel => fileUrl ++ pjoin new rel)
+    if scheme path = SFV.Gen.remapScheme then
+      (relpath cwd (unquote (path.drop SFV.Gen.remapDrop)) old).map (fun rel => fileUrl ++ pjoin new rel)
     else some path
   else (relpath cwd (unquote path) old).map (fun rel => pjoin new rel)
 
@@ -168,14 +170,15 @@ inductive Val where
   | ocons (key : Str) (v rest : Val)
 deriving DecidableEq, Repr
 
-def kClass : Str := ['c', 'l', 'a', 's', 's']
-def kType : Str := ['t', 'y', 'p', 'e']
-def kLocation : Str := ['l', 'o', 'c', 'a', 't', 'i', 'o', 'n']
-def kPath : Str := ['p', 'a', 't', 'h']
-def kSecondary : Str := ['s', 'e', 'c', 'o', 'n', 'd', 'a', 'r', 'y', 'F', 'i', 'l', 'e', 's']
-def kListing : Str := ['l', 'i', 's', 't', 'i', 'n', 'g']
-def sFile : Str := ['F', 'i', 'l', 'e']
-def sDirectory : Str := ['D', 'i', 'r', 'e', 'c', 't', 'o', 'r', 'y']
+/-! the keys and class names come from the source (`SFV/Gen/RemapKeys.lean`, regenerated on every run) -/
+@[reducible] def kClass : Str := SFV.Gen.remapKClass
+@[reducible] def kType : Str := SFV.Gen.remapKType
+@[reducible] def kLocation : Str := SFV.Gen.remapPathKeyA
+@[reducible] def kPath : Str := SFV.Gen.remapPathKeyB
+@[reducible] def kSecondary : Str := SFV.Gen.remapListKeyA
+@[reducible] def kListing : Str := SFV.Gen.remapListKeyB
+@[reducible] def sFile : Str := SFV.Gen.remapClassA
+@[reducible] def sDirectory : Str := SFV.Gen.remapClassB
 
 /-- `d.get(key)` on an entry chain -/
 def Val.lookup (k : Str) : Val → Option Val
